@@ -241,7 +241,7 @@ pub fn write(dir: &Path, profile: &str, seed: u64, defs: &[CorpusDef], shards: u
         write_if_changed(&sdir.join("src/defs.rs"), &defs_rs);
         write_if_changed(&sdir.join("src/main.rs"), "mod defs;\nfn main() {\n    let t = std::thread::Builder::new().stack_size(256 << 20).spawn(|| vrt::driver::main(defs::TABLE)).unwrap();\n    t.join().unwrap();\n}\n");
         write_if_changed(&sdir.join("Cargo.toml"), &format!(
-            "[package]\nname = \"{name}\"\nversion = \"0.0.0\"\nedition = \"2021\"\n\n[features]\nforbid_unsafe = [\"vrt/forbid_unsafe\", \"logos/forbid_unsafe\"]\nstate_machine_codegen = [\"vrt/state_machine_codegen\", \"logos/state_machine_codegen\"]\n\n[dependencies]\nvrt = {{ path = \"{root}/harness/vrt\" }}\nlogos = {{ path = \"/repo\", features = [\"verif_hooks\"] }}\n", root = crate::verif_root()));
+            "[package]\nname = \"{name}\"\nversion = \"0.0.0\"\nedition = \"2021\"\n\n[features]\nforbid_unsafe = [\"vrt/forbid_unsafe\", \"logos/forbid_unsafe\"]\nstate_machine_codegen = [\"vrt/state_machine_codegen\", \"logos/state_machine_codegen\"]\n\n[dependencies]\nvrt = {{ path = \"{root}/harness/vrt\" }}\nlogos = {{ path = \"{repo}\", features = [\"verif_hooks\"] }}\n", root = crate::verif_root(), repo = crate::repo_root()));
     }
     write_if_changed(&dir.join("Cargo.toml"), &format!(
         "[workspace]\nmembers = [{}]\nresolver = \"2\"\n\n[profile.dev]\nopt-level = 0\ndebug = 0\nincremental = false\ndebug-assertions = true\noverflow-checks = true\n\n[profile.dev.package.\"*\"]\nopt-level = 2\n\n[profile.dev.build-override]\nopt-level = 2\n\n[profile.release]\nopt-level = 2\ndebug = 0\nincremental = false\ncodegen-units = 16\n\n[profile.release.build-override]\nopt-level = 2\n",
